@@ -220,7 +220,7 @@ func (c *Ctx) Finish(verifDir string, start time.Time, level string, explanation
 		Position  string `json:"position"`
 		By        string `json:"by"`
 	}
-	var samples []sample
+	samples := []sample{}
 	perRule := map[string]int{}
 	for _, o := range c.obs {
 		if o.Kind == "ok" && !o.Trivial && perRule[o.Rule] < 3 {
@@ -240,7 +240,7 @@ func (c *Ctx) Finish(verifDir string, start time.Time, level string, explanation
 	for _, id := range c.order {
 		rules = append(rules, c.rules[id])
 	}
-	var axioms []string
+	axioms := []string{}
 	for a := range c.axioms {
 		axioms = append(axioms, a)
 	}
@@ -249,7 +249,7 @@ func (c *Ctx) Finish(verifDir string, start time.Time, level string, explanation
 		Rule, Function, Construct, Position, Kind, Detail string
 		Known                                             bool
 	}
-	var open []openItem
+	open := []openItem{}
 	for _, o := range c.obs {
 		if o.Kind != "ok" && o.Kind != "control" {
 			open = append(open, openItem{o.Rule, o.Func, o.Construct, o.Pos, o.Kind, o.Detail, o.Known})
@@ -276,7 +276,7 @@ func (c *Ctx) Finish(verifDir string, start time.Time, level string, explanation
 			"samples":             samples,
 			"open":                open,
 			"analysed":            c.analysedMap(),
-			"notes":               c.notes,
+			"notes":               append([]string{}, c.notes...),
 			"checker_cmd":         checkerCmd,
 			"trusted_base":        trusted,
 			"exhaustive":          true,
